@@ -246,6 +246,15 @@ func (x *Exec) asKey(st *State, key Val) (*KeyVal, bool) {
 				return &KeyVal{Fam: fam}, true
 			}
 		}
+		if k.kind == tUF && k.Op == "bytes_of_str" && k.Args[0].kind == tSym && strings.HasPrefix(k.Args[0].Name, "str:") {
+			var lit string
+			fmt.Sscanf(k.Args[0].Name[4:], "%q", &lit)
+			if fam, ok := x.prog.families["const:"+lit]; ok {
+				return &KeyVal{Fam: fam}, true
+			}
+		}
+	case *EncVal:
+		return x.asKey(st, k.V)
 	}
 	return nil, false
 }
